@@ -77,6 +77,29 @@ pub fn window(meta: &CrystalMeta) -> (f64, f64) {
   }
 }
 
+/// signal beam constructed at (phi0, theta0) and re-aimed to (phi_s, theta_s) through the public setters named by `history`
+pub fn build_signal(pm: PMType, phi0: f64, theta0: f64, phi_s: f64, theta_s: f64, history: &str, ls: f64, waist_s: f64) -> SignalBeam {
+  let mut b = Beam::new(pm.signal_polarization(), phi0 * RAD, theta0 * RAD, ls * M, waist_s * M);
+  match history {
+    "theta_then_phi" => {
+      b.set_theta_internal(theta_s * RAD);
+      b.set_phi(phi_s * RAD);
+    }
+    "phi_then_theta" => {
+      b.set_phi(phi_s * RAD);
+      b.set_theta_internal(theta_s * RAD);
+    }
+    "angles" => {
+      b.set_angles(phi_s * RAD, theta_s * RAD);
+    }
+    "phi_only" => {
+      b.set_phi(phi_s * RAD);
+    }
+    _ => {}
+  }
+  b.into()
+}
+
 /// one random setup inside the property's box.  `class` selects the signal polar angle family.
 pub fn gen_setup(rng: &mut Rng, i: usize, theta_lo: f64, theta_hi: f64, allow_cp: bool) -> Setup {
   let metas = CrystalType::get_all_meta();
@@ -132,9 +155,20 @@ pub fn gen_setup(rng: &mut Rng, i: usize, theta_lo: f64, theta_hi: f64, allow_cp
     temperature: from_celsius_to_kelvin(t_c),
     counter_propagation: cp,
   };
-  let signal: SignalBeam = Beam::new(pm.signal_polarization(), phi_s * RAD, theta_s * RAD, ls * M, waist_s * M).into();
+  // one case in three reaches its final aim (phi_s, theta_s) through the setters, starting from other angles
+  let history = match rng.below(12) {
+    0 => "theta_then_phi",
+    1 => "phi_then_theta",
+    2 => "angles",
+    3 => "phi_only",
+    _ => "none",
+  };
+  let phi0 = if history == "none" { phi_s } else { rng.range(0.0, 2.0 * std::f64::consts::PI) };
+  let theta0 = if history == "none" || history == "phi_only" { theta_s } else { rng.range(theta_lo.min(-0.05), theta_hi) };
+  let signal = build_signal(pm, phi0, theta0, phi_s, theta_s, history, ls, waist_s);
   let pump: PumpBeam = Beam::new(pm.pump_polarization(), 0. * RAD, 0. * RAD, lp * M, waist_p * M).into();
   let input = json!({
+    "signal_phi0": fx(phi0), "signal_theta0": fx(theta0), "history": history,
     "crystal": meta.id, "pm_type": pm.to_str(), "crystal_theta": fx(c_theta), "crystal_phi": fx(c_phi),
     "temperature_c": fx(t_c), "length": fx(length), "counter_propagation": cp,
     "pump_wavelength": fx(lp), "pump_waist": fx(waist_p),
@@ -165,8 +199,11 @@ pub fn setup_from_json(input: &Value, pp: &Value) -> Option<Setup> {
     temperature: from_celsius_to_kelvin(g("temperature_c")?),
     counter_propagation: input.get("counter_propagation").and_then(|v| v.as_bool()).unwrap_or(false),
   };
-  let signal: SignalBeam =
-    Beam::new(pm.signal_polarization(), g("signal_phi")? * RAD, g("signal_theta")? * RAD, g("signal_wavelength")? * M, g("signal_waist")? * M).into();
+  let history = input.get("history").and_then(|v| v.as_str()).unwrap_or("none");
+  let signal = build_signal(
+    pm, g("signal_phi0").unwrap_or(g("signal_phi")?), g("signal_theta0").unwrap_or(g("signal_theta")?), g("signal_phi")?, g("signal_theta")?, history,
+    g("signal_wavelength")?, g("signal_waist")?,
+  );
   let pump: PumpBeam = Beam::new(pm.pump_polarization(), 0. * RAD, 0. * RAD, g("pump_wavelength")? * M, g("pump_waist")? * M).into();
   let ppv = if pp.get("on").and_then(|v| v.as_bool()).unwrap_or(false) {
     PeriodicPoling::On {
@@ -185,8 +222,13 @@ pub fn observe(i: usize, s: Setup, d1: f64, d2: f64) {
     let Setup { cs, signal, pump, pp, input } = s;
     let res = guarded(|| {
       let idler_r = IdlerBeam::try_new_optimum(&signal, &pump, &cs, &pp);
+      let direct: SignalBeam = Beam::new(
+        signal.polarization(), f64_of(&input["signal_phi"]) * RAD, f64_of(&input["signal_theta"]) * RAD,
+        f64_of(&input["signal_wavelength"]) * M, signal.waist(),
+      ).into();
       let mut o = json!({
         "kind": "case", "i": i, "input": input, "signal": beam_json(&signal, &cs), "pump": beam_json(&pump, &cs),
+        "same_as_direct": direct == signal,
         "pp": pp_json(&pp), "idler": idler_json(&idler_r, &cs), "d": [fx(d1), fx(d2)],
       });
       if let Ok(idler) = &idler_r {
